@@ -11,7 +11,7 @@ history length.
   total order with its derived relations.  For `double` elements (NaN unordered) the header's relations equal
   `std::pair`'s exactly outside the input class `Spec.unorderedPair` and differ on every input inside it.
   Tuple `==` is list equality for every arity, 0 included.
-* tuple_cat of one or more tuples is their concatenation; no read out of range.
+* tuple_cat of any number of tuples is their concatenation; no read out of range.
 * calls: `invoke`, `reference_wrapper`, `function_ref`, `bind_front`, `not_fn`, `apply` never fail and their
   outcome satisfies the predicate `Spec.CalledOnce`: one log entry, for the wrapped target, called through the
   prescribed object category with the given arguments (a bound `reference_wrapper` stays a wrapper), result handed
@@ -57,6 +57,53 @@ theorem swapAll_eq (t : List El2) : swapAll t = Spec.swap t := by
     obtain ⟨k, x, y⟩ := e
     simp only [swapAll, swapElem, ih, Spec.swap, List.map_cons, List.sum_cons]
     simp [Nat.mul_add]
+
+/-- converting copy assignment (`pair<T1,T2> = pair<U1,U2> const&`): the member-wise assignments, each decided by the
+    class and the value category of `p.first` (always an lvalue), equal the whole-object form of [pairs.pair] -/
+theorem convAssignAll_eq (t : List ElX) : convAssignAll t = Spec.convAssign t := by
+  induction t with
+  | nil => rfl
+  | cons e t ih =>
+    obtain ⟨kd, ks, x, y⟩ := e
+    simp only [convAssignAll, ih, Spec.convAssign, List.map_cons, List.sum_cons]
+    cases ks <;> rfl
+
+/-- converting move assignment (`pair<T1,T2> = pair<U1,U2>&&`): assigning `forward<U>(p.first)` member by member - an
+    rvalue of the class unless `U` is a reference - leaves in the source and copies exactly what [pairs.pair] says for
+    the source kind; in particular the referent of a reference element is never moved from -/
+theorem convMoveAssignAll_eq (t : List ElX) : convMoveAssignAll t = Spec.convMoveAssign t := by
+  induction t with
+  | nil => rfl
+  | cons e t ih =>
+    obtain ⟨kd, ks, x, y⟩ := e
+    simp only [convMoveAssignAll, ih, Spec.convMoveAssign, List.map_cons, List.sum_cons]
+    cases ks <;> rfl
+
+/-- when source and destination have the same element kinds the converting copy assignment is the copy assignment -/
+theorem convAssignAll_same (t : List El2) :
+    convAssignAll (t.map fun e => (e.1, e.1, e.2.1, e.2.2)) = assignAll t := by
+  rw [convAssignAll_eq, assignAll_eq]
+  simp [Spec.convAssign, Spec.assign, List.map_map, Function.comp_def]
+
+/-- ... and the converting move assignment is the move assignment -/
+theorem convMoveAssignAll_same (t : List El2) :
+    convMoveAssignAll (t.map fun e => (e.1, e.1, e.2.1, e.2.2)) = moveAssignAll t := by
+  rw [convMoveAssignAll_eq, moveAssignAll_eq]
+  simp [Spec.convMoveAssign, Spec.moveAssign, List.map_map, Function.comp_def]
+
+/-- the referents of reference elements survive a move assignment: whatever the destination kinds, a source element of
+    reference kind holds its value afterwards (the defect repaired in round C20s moved from it) -/
+theorem convMoveAssign_keeps_referents (t : List ElX) (h : ∀ e ∈ t, e.2.1.forwardsRvalue = false) :
+    (convMoveAssignAll t).2.1 = t.map (·.2.2.2) := by
+  rw [convMoveAssignAll_eq]
+  simp only [Spec.convMoveAssign]
+  apply List.map_congr_left
+  intro e he
+  have := h e he
+  obtain ⟨kd, ks, x, y⟩ := e
+  cases ks <;> simp_all [EK.forwardsRvalue, EK.residue]
+
+example : ∀ e ∈ [((EK.trk, EK.tref, 1, 3) : ElX), (.tref, .tcref, 2, 4)], e.2.1.forwardsRvalue = false := by decide
 
 /-- a moved-from source keeps its arity and every copy-only / plain element keeps its value -/
 theorem move_source_length (t : List El) : (moveAll t).2.1.length = t.length := by
@@ -260,11 +307,12 @@ end rel
 
 /-! ## tuple_cat / apply -/
 
-/-- `tuple_cat` of one or more tuples is their concatenation (all elements, in order); no element read
-    leaves its tuple.  (`tuple_cat()` with no argument does not exist in the header.) -/
-theorem tuple_cat_eq (t : List Int) (ts : List (List Int)) :
-    tupleCat (t :: ts) = .ok (Spec.tupleCat (t :: ts)) := by
-  simp [tupleCat, catGo_eq, Spec.tupleCat]
+/-- `tuple_cat` of any number of tuples (none included: the empty tuple) is their concatenation (all elements, in order);
+    no element read leaves its tuple.  (Formerly stated for one or more tuples: `tuple_cat()` did not exist in the header.) -/
+theorem tuple_cat_eq (ts : List (List Int)) : tupleCat ts = .ok (Spec.tupleCat ts) := by
+  cases ts with
+  | nil => rfl
+  | cons t ts => simp [tupleCat, catGo_eq, Spec.tupleCat]
 
 /-! ## calls
 
@@ -358,6 +406,36 @@ example : Spec.target? (.fob 7 .r) = some (7, some .r) := rfl
     (bookkeeping: it IS the index-sequence expansion `getAll`) -/
 theorem makeFromTuple_eq (t : List Int) : makeFromTuple t = .ok t := getAll_eq t
 
+/-- `make_from_tuple<T>(t)` initialises `T` as the direct-non-list-initialisation `T(e0, …, en-1)` of [tuple.apply] does, for
+    every target kind (also those with an `initializer_list` constructor, aggregates, explicit constructors, narrowing
+    parameters) and every tuple of at most three elements (the arities the target types of the harness accept); no read leaves
+    the tuple -/
+theorem makeFromTupleT_eq (tg : Target) (t : List Int) (h : t.length ≤ 3) :
+    makeFromTupleT tg t = .ok (Spec.directInit tg t) := by
+  simp only [makeFromTupleT, getAll_eq, bind, Except.bind]
+  cases tg <;> simp [parenInit, aggMembers, h, Spec.directInit, Spec.aggFrom]
+
+example : ([3, 7] : List Int).length ≤ 3 := by decide
+example : makeFromTupleT .il [3, 7] = .ok (.ctor [3, 7]) := rfl
+
+/-- The specification distinguishes parentheses from braces: for a target with a viable `initializer_list` constructor
+    list-initialisation of a non-empty tuple hands the elements over as ONE list, and for a target whose parameters narrow it
+    does not compile — in both cases not what [tuple.apply] prescribes (the class of the seeded change `T{get<I>(t)...}`) -/
+theorem listInit_differs (tg : Target) (x : Int) (xs : List Int)
+    (h : tg = .il ∨ tg = .ilWide ∨ tg = .aggNarrow ∨ tg = .ctorNarrow) :
+    Spec.listInit tg (x :: xs) ≠ Spec.directInit tg (x :: xs) := by
+  rcases h with h | h | h | h <;> subst h <;> simp [Spec.listInit, Spec.directInit, Spec.aggFrom]
+
+example : Spec.listInit .il [3, 7] = .list [3, 7] ∧ Spec.directInit .il [3, 7] = .ctor [3, 7] := by decide
+
+/-- … and only there: for every other target kind, and for the empty tuple, the two forms initialise alike -/
+theorem listInit_same (tg : Target) (t : List Int)
+    (h : t = [] ∨ tg = .plain ∨ tg = .ilOther ∨ tg = .agg ∨ tg = .expl) :
+    Spec.listInit tg t = Spec.directInit tg t := by
+  rcases h with h | h | h | h | h <;> subst h <;> first | (cases tg <;> rfl) | (cases t <;> rfl) | rfl
+
+example : Spec.listInit .ilOther [3, 7] = Spec.directInit .ilOther [3, 7] := rfl
+
 /-! ## inplace_function -/
 
 theorem step_refines {s : St} (hinv : Inv s) (op : Op) (hv : Spec.valid op = true) :
@@ -380,7 +458,7 @@ theorem step_refines {s : St} (hinv : Inv s) (op : Op) (hv : Spec.valid op = tru
     · inv_pt hc i, i
     · simp [upd, ht]
     · abs_pt i, i
-  | ctorCopy i j conv =>
+  | ctorFrom i j conv q =>
     have hij : i ≠ j := by simpa [Spec.valid] using hv
     have hne : Addr.obj i ≠ Addr.obj j := by intro h; cases h; exact hij rfl
     have e1 := dtor_ok (hc (.obj i))
@@ -389,82 +467,72 @@ theorem step_refines {s : St} (hinv : Inv s) (op : Op) (hv : Spec.valid op = tru
       rw [upd_other _ (Ne.symm hne), upd_other _ (Ne.symm hne)]; exact hc _
     have e2 := ctorCopy_ok (s := { vt := upd s.vt (.obj i) none, mem := upd s.mem (.obj i) none }) hco hd
     have e3 := ctorConvCopy_ok (s := { vt := upd s.vt (.obj i) none, mem := upd s.mem (.obj i) none }) hco hd
-    cases conv
-    · simp only [step, bind, Except.bind, e1, e2, Spec.step, Refines, Bool.false_eq_true, if_false]
-      refine ⟨⟨?_, ?_⟩, ?_, trivial, trivial⟩
-      · inv_pt hc i, j
-      · simp [upd, ht]
-      · abs_pt i, j
-    · simp only [step, bind, Except.bind, e1, e3, Spec.step, Refines, if_true]
-      refine ⟨⟨?_, ?_⟩, ?_, trivial, trivial⟩
-      · inv_pt hc i, j
-      · simp [upd, ht]
-      · abs_pt i, j
-  | ctorMove i j conv =>
-    have hij : i ≠ j := by simpa [Spec.valid] using hv
-    have hne : Addr.obj i ≠ Addr.obj j := by intro h; cases h; exact hij rfl
-    have e1 := dtor_ok (hc (.obj i))
-    have hd : (upd s.mem (.obj i) none) (.obj i) = none := upd_same _ _ _
-    have hco : (upd s.vt (.obj i) none) (.obj j) = ((upd s.mem (.obj i) none) (.obj j)).map (·.ty) := by
-      rw [upd_other _ (Ne.symm hne), upd_other _ (Ne.symm hne)]; exact hc _
-    have e2 := ctorMove_ok (s := { vt := upd s.vt (.obj i) none, mem := upd s.mem (.obj i) none }) hco hd hne
-    have e3 := ctorConvMove_ok (s := { vt := upd s.vt (.obj i) none, mem := upd s.mem (.obj i) none }) hco hd hne
-    cases conv
-    · simp only [step, bind, Except.bind, e1, e2, Spec.step, Refines, Bool.false_eq_true, if_false]
-      refine ⟨⟨?_, ?_⟩, ?_, trivial, trivial⟩
-      · inv_pt hc i, j
-      · simp [upd, ht]
-      · abs_pt i, j
-    · simp only [step, bind, Except.bind, e1, e3, Spec.step, Refines, if_true]
-      refine ⟨⟨?_, ?_⟩, ?_, trivial, trivial⟩
-      · inv_pt hc i, j
-      · simp [upd, ht]
-      · abs_pt i, j
-  | assignCopy i j conv =>
-    have e1 := ctorCopy_ok (s := s) (a := .tmp) (hc (.obj j)) ht
-    have e1' := ctorConvCopy_ok (s := s) (a := .tmp) (hc (.obj j)) ht
-    have ha : (upd s.vt .tmp (s.vt (.obj j))) (.obj i) = ((upd s.mem .tmp (s.mem (.obj j))) (.obj i)).map (·.ty) := by
-      rw [upd_other _ (obj_ne_tmp i), upd_other _ (obj_ne_tmp i)]; exact hc _
-    have htt : (upd s.vt .tmp (s.vt (.obj j))) .tmp = ((upd s.mem .tmp (s.mem (.obj j))) .tmp).map (·.ty) := by
-      rw [upd_same, upd_same]; exact hc _
-    have e2 := assignBody_ok (s := { vt := upd s.vt .tmp (s.vt (.obj j)), mem := upd s.mem .tmp (s.mem (.obj j)) })
-      (a := .obj i) ha htt (obj_ne_tmp i)
-    cases conv
-    · simp only [step, assignCopy, bind, Except.bind, e1, e2, Spec.step, Refines, Bool.false_eq_true, if_false]
-      refine ⟨⟨?_, ?_⟩, ?_, trivial, trivial⟩
-      · inv_pt hc i, j
-      · simp [upd]
-      · abs_pt i, j
-    · simp only [step, assignCopy, bind, Except.bind, e1', e2, Spec.step, Refines, if_true]
-      refine ⟨⟨?_, ?_⟩, ?_, trivial, trivial⟩
-      · inv_pt hc i, j
-      · simp [upd]
-      · abs_pt i, j
-  | assignMove i j conv =>
-    have e1 := ctorMove_ok (s := s) (a := .tmp) (hc (.obj j)) ht (tmp_ne_obj j)
-    have e1' := ctorConvMove_ok (s := s) (a := .tmp) (hc (.obj j)) ht (tmp_ne_obj j)
-    have ha : ∀ (vt : Addr → Option Nat), (∀ x, vt x = (upd (upd s.mem .tmp (s.mem (.obj j))) (.obj j) none x).map (·.ty)) →
-        Refines (do let r ← assignBody { vt := vt, mem := upd (upd s.mem .tmp (s.mem (.obj j))) (.obj j) none } (.obj i); pure (r, Out.unit, []))
-          (Spec.step (abs s) (.assignMove i j conv)) := by
-      intro vt hvt
-      have e2 := assignBody_ok (s := { vt := vt, mem := upd (upd s.mem .tmp (s.mem (.obj j))) (.obj j) none })
-        (a := .obj i) (hvt _) (hvt _) (obj_ne_tmp i)
-      simp only [bind, Except.bind, e2, pure, Except.pure, Spec.step, Refines]
-      refine ⟨⟨?_, ?_⟩, ?_, trivial, trivial⟩
-      · intro x
-        have h0 := hvt x; have hi := hvt (.obj i); have hj := hvt (.obj j); have htmp := hvt .tmp
-        by_cases h1 : x = .obj i <;> by_cases h2 : x = .obj j <;> by_cases h3 : x = .tmp <;> simp_all [upd]
-      · simp [upd]
-      · abs_pt i, j
-    cases conv
-    · have := ha (upd (upd s.vt (.obj j) none) .tmp (s.vt (.obj j))) (by
-        intro x; have h0 := hc x; have hj := hc (.obj j)
-        by_cases h2 : x = .obj j <;> by_cases h3 : x = .tmp <;> simp_all [upd])
-      simpa only [step, assignMove, bind, Except.bind, e1, Bool.false_eq_true, if_false, pure, Except.pure] using this
-    · have := ha (upd (upd s.vt .tmp (s.vt (.obj j))) (.obj j) none) (by
-        intro x; have h0 := hc x; have hj := hc (.obj j)
-        by_cases h2 : x = .obj j <;> by_cases h3 : x = .tmp <;> simp_all [upd])
-      simpa only [step, assignMove, bind, Except.bind, e1', if_true, pure, Except.pure] using this
+    have e4 := ctorMove_ok (s := { vt := upd s.vt (.obj i) none, mem := upd s.mem (.obj i) none }) hco hd hne
+    have e5 := ctorConvMove_ok (s := { vt := upd s.vt (.obj i) none, mem := upd s.mem (.obj i) none }) hco hd hne
+    -- the four source categories select the copying or the relocating constructor; plain and converting form each
+    cases q <;> cases conv <;>
+      (simp only [step, ctorFrom, selectCtor, bind, Except.bind, e1, e2, e3, e4, e5, Spec.step, Spec.gives, Refines,
+        Bool.false_eq_true, if_false, if_true, beq_self_eq_true, show (Cat.l == Cat.r) = false from rfl,
+        show (Cat.c == Cat.r) = false from rfl, show (Cat.k == Cat.r) = false from rfl]
+       refine ⟨⟨?_, ?_⟩, ?_, trivial, trivial⟩
+       · inv_pt hc i, j
+       · simp [upd, ht]
+       · abs_pt i, j)
+  | assignFrom i j conv q =>
+    -- copy form: the by-value parameter is copy-constructed in `.tmp`
+    have copyCase : Refines (do let r ← assignCopy s (.obj i) (.obj j) conv; Except.ok (r, Out.unit, ([] : Log)))
+        (Spec.set (abs s) i (abs s j), Out.unit, []) := by
+      have e1 := ctorCopy_ok (s := s) (a := .tmp) (hc (.obj j)) ht
+      have e1' := ctorConvCopy_ok (s := s) (a := .tmp) (hc (.obj j)) ht
+      have ha : (upd s.vt .tmp (s.vt (.obj j))) (.obj i) = ((upd s.mem .tmp (s.mem (.obj j))) (.obj i)).map (·.ty) := by
+        rw [upd_other _ (obj_ne_tmp i), upd_other _ (obj_ne_tmp i)]; exact hc _
+      have htt : (upd s.vt .tmp (s.vt (.obj j))) .tmp = ((upd s.mem .tmp (s.mem (.obj j))) .tmp).map (·.ty) := by
+        rw [upd_same, upd_same]; exact hc _
+      have e2 := assignBody_ok (s := { vt := upd s.vt .tmp (s.vt (.obj j)), mem := upd s.mem .tmp (s.mem (.obj j)) })
+        (a := .obj i) ha htt (obj_ne_tmp i)
+      cases conv
+      · simp only [assignCopy, bind, Except.bind, e1, e2, Refines, Bool.false_eq_true, if_false]
+        refine ⟨⟨?_, ?_⟩, ?_, trivial, trivial⟩
+        · inv_pt hc i, j
+        · simp [upd]
+        · abs_pt i, j
+      · simp only [assignCopy, bind, Except.bind, e1', e2, Refines, if_true]
+        refine ⟨⟨?_, ?_⟩, ?_, trivial, trivial⟩
+        · inv_pt hc i, j
+        · simp [upd]
+        · abs_pt i, j
+    -- move form: the parameter is move-constructed in `.tmp`, the source's vtable becomes the empty one
+    have moveCase : Refines (do let r ← assignMove s (.obj i) (.obj j) conv; Except.ok (r, Out.unit, ([] : Log)))
+        (Spec.set (Spec.set (abs s) j none) i (abs s j), Out.unit, []) := by
+      have e1 := ctorMove_ok (s := s) (a := .tmp) (hc (.obj j)) ht (tmp_ne_obj j)
+      have e1' := ctorConvMove_ok (s := s) (a := .tmp) (hc (.obj j)) ht (tmp_ne_obj j)
+      have ha : ∀ (vt : Addr → Option Nat), (∀ x, vt x = (upd (upd s.mem .tmp (s.mem (.obj j))) (.obj j) none x).map (·.ty)) →
+          Refines (do let r ← assignBody { vt := vt, mem := upd (upd s.mem .tmp (s.mem (.obj j))) (.obj j) none } (.obj i); pure (r, Out.unit, ([] : Log)))
+            (Spec.set (Spec.set (abs s) j none) i (abs s j), Out.unit, []) := by
+        intro vt hvt
+        have e2 := assignBody_ok (s := { vt := vt, mem := upd (upd s.mem .tmp (s.mem (.obj j))) (.obj j) none })
+          (a := .obj i) (hvt _) (hvt _) (obj_ne_tmp i)
+        simp only [bind, Except.bind, e2, pure, Except.pure, Refines]
+        refine ⟨⟨?_, ?_⟩, ?_, trivial, trivial⟩
+        · intro x
+          have h0 := hvt x; have hi := hvt (.obj i); have hj := hvt (.obj j); have htmp := hvt .tmp
+          by_cases h1 : x = .obj i <;> by_cases h2 : x = .obj j <;> by_cases h3 : x = .tmp <;> simp_all [upd]
+        · simp [upd]
+        · abs_pt i, j
+      cases conv
+      · have := ha (upd (upd s.vt (.obj j) none) .tmp (s.vt (.obj j))) (by
+          intro x; have h0 := hc x; have hj := hc (.obj j)
+          by_cases h2 : x = .obj j <;> by_cases h3 : x = .tmp <;> simp_all [upd])
+        simpa only [assignMove, bind, Except.bind, e1, Bool.false_eq_true, if_false, pure, Except.pure] using this
+      · have := ha (upd (upd s.vt .tmp (s.vt (.obj j))) (.obj j) none) (by
+          intro x; have h0 := hc x; have hj := hc (.obj j)
+          by_cases h2 : x = .obj j <;> by_cases h3 : x = .tmp <;> simp_all [upd])
+        simpa only [assignMove, bind, Except.bind, e1', if_true, pure, Except.pure] using this
+    cases q
+    case r => simpa only [step, assignFrom, selectCtor, Spec.step, Spec.gives, beq_self_eq_true, if_true] using moveCase
+    all_goals
+      simpa only [step, assignFrom, selectCtor, Spec.step, Spec.gives, show (Cat.l == Cat.r) = false from rfl,
+        show (Cat.c == Cat.r) = false from rfl, show (Cat.k == Cat.r) = false from rfl, Bool.false_eq_true, if_false] using copyCase
   | assignFn i f =>
     have e1 := ctorFn_ok (s := s) (a := .tmp) f ht
     have ha : (upd s.vt .tmp (some f.ty)) (.obj i) = ((upd s.mem .tmp (some f)) (.obj i)).map (·.ty) := by
@@ -545,7 +613,7 @@ theorem step_refines {s : St} (hinv : Inv s) (op : Op) (hv : Spec.valid op = tru
     rw [hi]; simp [abs]
 
 
-example : Inv St.init ∧ Spec.valid (.ctorCopy 0 1 false) = true := ⟨inv_init, rfl⟩
+example : Inv St.init ∧ Spec.valid (.ctorFrom 0 1 false .l) = true := ⟨inv_init, rfl⟩
 
 /-- refinement of whole histories -/
 def RefinesRun (r : Except Err (St × List Out × Log)) (sp : Spec.ASt × List Out × Log) : Prop :=
@@ -574,7 +642,7 @@ theorem run_refines : ∀ (ops : List Op) (s : St), Inv s → ops.all Spec.valid
       simp only [run, hs1, hr, bind, Except.bind, Spec.run, RefinesRun]
       exact ⟨i1, i2, by rw [i3], by rw [i4]⟩
 
-example : Inv St.init ∧ ([.ctorFn 0 ⟨3, 5, 0⟩, .swap 0 0, .assignMove 1 0 false, .call 1 7] : List Op).all Spec.valid = true :=
+example : Inv St.init ∧ ([.ctorFn 0 ⟨3, 5, 0⟩, .swap 0 0, .assignFrom 1 0 false .r, .ctorFrom 2 1 true .l, .call 2 7] : List Op).all Spec.valid = true :=
   ⟨inv_init, by decide⟩
 
 /-- the memory-safety / lifetime face: no history reads a destroyed closure, constructs over a live one, or
@@ -616,25 +684,54 @@ example : ∃ s, step St.init (.ctorFn 0 ⟨3, 5, 0⟩) = .ok (s, .unit, []) ∧
   obtain ⟨s', h1, h2, h3⟩ := refines_ok (step_refines inv_init (.ctorFn 0 ⟨3, 5, 0⟩) rfl)
   exact ⟨s', h1, h2, by rw [h3]; rfl⟩
 
-/-- copying yields two wrappers with equivalent targets; nothing else changes -/
-theorem copy_equivalent {s : St} (hinv : Inv s) (i j : Nat) (conv : Bool) (hij : i ≠ j) :
-    ∃ s', step s (.ctorCopy i j conv) = .ok (s', .unit, []) ∧ Inv s' ∧
+/-- copying — construction from a source expression of any category but a non-const rvalue: a non-const lvalue, a const lvalue,
+    a const rvalue; from the same or (`conv`) from another specialisation — yields two wrappers with equivalent targets; in
+    particular the copy of an empty wrapper is empty; nothing else changes.  (Formerly stated for the const-lvalue form only.) -/
+theorem copy_equivalent {s : St} (hinv : Inv s) (i j : Nat) (conv : Bool) (q : Cat) (hq : Spec.gives q = false) (hij : i ≠ j) :
+    ∃ s', step s (.ctorFrom i j conv q) = .ok (s', .unit, []) ∧ Inv s' ∧
       abs s' i = abs s j ∧ abs s' j = abs s j ∧ ∀ k, k ≠ i → abs s' k = abs s k := by
-  have hv : Spec.valid (.ctorCopy i j conv) = true := by simp [Spec.valid, hij]
+  have hv : Spec.valid (.ctorFrom i j conv q) = true := by simp [Spec.valid, hij]
   obtain ⟨s', h1, h2, h3⟩ := refines_ok (step_refines hinv _ hv)
-  refine ⟨s', h1, h2, ?_, ?_, ?_⟩ <;> simp [h3, Spec.step, Spec.set, Ne.symm hij]
+  refine ⟨s', h1, h2, ?_, ?_, ?_⟩ <;> simp [h3, Spec.step, hq, Spec.set, Ne.symm hij]
   intro k hk; simp [hk]
 
-example : Inv St.init ∧ (0 : Nat) ≠ 1 := ⟨inv_init, by decide⟩
+example : Inv St.init ∧ Spec.gives .l = false ∧ Spec.gives .k = false ∧ (0 : Nat) ≠ 1 := ⟨inv_init, rfl, rfl, by decide⟩
 
-/-- moving transfers the target and leaves the source empty -/
+/-- moving — construction from a non-const rvalue — transfers the target and leaves the source empty -/
 theorem move_transfers {s : St} (hinv : Inv s) (i j : Nat) (conv : Bool) (hij : i ≠ j) :
-    ∃ s', step s (.ctorMove i j conv) = .ok (s', .unit, []) ∧ Inv s' ∧
+    ∃ s', step s (.ctorFrom i j conv .r) = .ok (s', .unit, []) ∧ Inv s' ∧
       abs s' i = abs s j ∧ abs s' j = none ∧ ∀ k, k ≠ i → k ≠ j → abs s' k = abs s k := by
-  have hv : Spec.valid (.ctorMove i j conv) = true := by simp [Spec.valid, hij]
+  have hv : Spec.valid (.ctorFrom i j conv .r) = true := by simp [Spec.valid, hij]
   obtain ⟨s', h1, h2, h3⟩ := refines_ok (step_refines hinv _ hv)
-  refine ⟨s', h1, h2, ?_, ?_, ?_⟩ <;> simp [h3, Spec.step, Spec.set, Ne.symm hij]
+  refine ⟨s', h1, h2, ?_, ?_, ?_⟩ <;> simp [h3, Spec.step, Spec.gives, Spec.set, Ne.symm hij]
   intro k hk hkj; simp [hk, hkj]
+
+/-- a wrapper constructed or assigned from an EMPTY wrapper is empty — whatever the category of the source expression and
+    whether or not the source is of another specialisation: it reports empty (`operator bool`, `== nullptr`, `!= nullptr`)
+    and a call reports `bad_function_call` and calls nothing -/
+theorem from_empty_is_empty {s : St} (hinv : Inv s) (i j : Nat) (conv : Bool) (q : Cat) (hij : i ≠ j) (he : abs s j = none) :
+    (∃ s', step s (.ctorFrom i j conv q) = .ok (s', .unit, []) ∧ Inv s' ∧ abs s' i = none ∧
+        step s' (.bool i) = .ok (s', .flag false, []) ∧ step s' (.eqNull i) = .ok (s', .flag true, []) ∧
+        step s' (.neNull i) = .ok (s', .flag false, []) ∧ ∀ x, step s' (.call i x) = .ok (s', .res .bad, [])) ∧
+    (∃ s', step s (.assignFrom i j conv q) = .ok (s', .unit, []) ∧ Inv s' ∧ abs s' i = none ∧
+        step s' (.bool i) = .ok (s', .flag false, []) ∧ step s' (.eqNull i) = .ok (s', .flag true, []) ∧
+        step s' (.neNull i) = .ok (s', .flag false, []) ∧ ∀ x, step s' (.call i x) = .ok (s', .res .bad, [])) := by
+  have obs : ∀ s' : St, Inv s' → abs s' i = none →
+      step s' (.bool i) = .ok (s', .flag false, []) ∧ step s' (.eqNull i) = .ok (s', .flag true, []) ∧
+      step s' (.neNull i) = .ok (s', .flag false, []) ∧ ∀ x, step s' (.call i x) = .ok (s', .res .bad, []) := by
+    intro s' hinv' he'
+    have hv : s'.vt (.obj i) = none := by rw [hinv'.1 (.obj i)]; simp [show s'.mem (.obj i) = none from he']
+    refine ⟨?_, ?_, ?_, ?_⟩ <;> simp [step, toBool, call, hv, bind, Except.bind]
+  constructor
+  · have hv : Spec.valid (.ctorFrom i j conv q) = true := by simp [Spec.valid, hij]
+    obtain ⟨s', h1, h2, h3⟩ := refines_ok (step_refines hinv _ hv)
+    have h4 : abs s' i = none := by simp [h3, Spec.step, Spec.set, he]
+    exact ⟨s', h1, h2, h4, obs s' h2 h4⟩
+  · obtain ⟨s', h1, h2, h3⟩ := refines_ok (step_refines hinv (.assignFrom i j conv q) rfl)
+    have h4 : abs s' i = none := by simp [h3, Spec.step, Spec.set, he]
+    exact ⟨s', h1, h2, h4, obs s' h2 h4⟩
+
+example : Inv St.init ∧ (0 : Nat) ≠ 3 ∧ abs St.init 3 = none := ⟨inv_init, by decide, rfl⟩
 
 /-- swapping exchanges the targets — and a self-swap changes nothing -/
 theorem swap_exchanges {s : St} (hinv : Inv s) (i j : Nat) :
@@ -646,22 +743,18 @@ theorem swap_exchanges {s : St} (hinv : Inv s) (i j : Nat) :
   · simp [h3, Spec.step, Spec.set]
   · intro k hk hkj; simp [h3, Spec.step, Spec.set, hk, hkj]
 
-/-- assignment (copy or move, also from itself) makes the target of `j` the target of `i`; a move empties `j`
-    unless it is `i` itself -/
-theorem assign_equivalent {s : St} (hinv : Inv s) (i j : Nat) (conv : Bool) :
-    (∃ s', step s (.assignCopy i j conv) = .ok (s', .unit, []) ∧ Inv s' ∧ abs s' i = abs s j ∧
-        ∀ k, k ≠ i → abs s' k = abs s k) ∧
-    (∃ s', step s (.assignMove i j conv) = .ok (s', .unit, []) ∧ Inv s' ∧ abs s' i = abs s j ∧
-        (i ≠ j → abs s' j = none)) := by
-  constructor
-  · obtain ⟨s', h1, h2, h3⟩ := refines_ok (step_refines hinv (.assignCopy i j conv) rfl)
-    refine ⟨s', h1, h2, ?_, ?_⟩
-    · simp [h3, Spec.step, Spec.set]
-    · intro k hk; simp [h3, Spec.step, Spec.set, hk]
-  · obtain ⟨s', h1, h2, h3⟩ := refines_ok (step_refines hinv (.assignMove i j conv) rfl)
-    refine ⟨s', h1, h2, ?_, ?_⟩
-    · simp [h3, Spec.step, Spec.set]
-    · intro hij; simp [h3, Spec.step, Spec.set, Ne.symm hij]
+/-- assignment from a source expression of any category (also from itself, also from another specialisation) makes the
+    target of `j` the target of `i`; from anything but a non-const rvalue the source and every other wrapper are unchanged;
+    from a non-const rvalue the source is emptied unless it is `i` itself -/
+theorem assign_equivalent {s : St} (hinv : Inv s) (i j : Nat) (conv : Bool) (q : Cat) :
+    ∃ s', step s (.assignFrom i j conv q) = .ok (s', .unit, []) ∧ Inv s' ∧ abs s' i = abs s j ∧
+      (Spec.gives q = false → ∀ k, k ≠ i → abs s' k = abs s k) ∧
+      (Spec.gives q = true → i ≠ j → abs s' j = none) := by
+  obtain ⟨s', h1, h2, h3⟩ := refines_ok (step_refines hinv (.assignFrom i j conv q) rfl)
+  refine ⟨s', h1, h2, ?_, ?_, ?_⟩
+  · simp [h3, Spec.step, Spec.set]
+  · intro hq k hk; simp [h3, Spec.step, hq, Spec.set, hk]
+  · intro hq hij; simp [h3, Spec.step, hq, Spec.set, Ne.symm hij]
 
 /-- the free `swap(lhs, rhs)` exchanges the targets exactly as the member does -/
 theorem fswap_exchanges {s : St} (hinv : Inv s) (i j : Nat) :
